@@ -122,6 +122,9 @@ def run(ctx):
     ctx.translate(['Consts.v', 'LockScope.v'])
     models_ok = ctx.build_models(['Base.Show', 'Model.DbTypes', 'Model.Database', 'Spec.MapSpec', 'Model.Atomic', 'Spec.AtomicSpec', 'Model.FfiWire'])
     ctx.models_ok = models_ok
+    # the database model itself does not depend on the C-ABI tables: keep judging the op sequences when only the
+    # composed model (Model.FfiWire over Gen/FfiTables.v) is lost
+    core_ok = models_ok or vlib.coq_make([vlib.vo(m) for m in ['Base.Show', 'Model.DbTypes', 'Model.Database', 'Spec.MapSpec']])[0] == 0
     ctx.prove()
     if ctx.tier == 'thorough':
         ctx.coqchk()
@@ -140,7 +143,7 @@ def run(ctx):
 
     def evaluate(cs):
         impl = ctx.harness('db_ops', cs, timeout=1200)
-        if models_ok:
+        if core_ok:
             both = ctx.coq_eval(['Base.Show', 'Model.DbTypes', 'Model.Database', 'Spec.MapSpec'], FN, [to_coq(c) for c in cs],
                                 case_type='list op', preamble='Local Open Scope string_scope.', per_shard=250)
         else:
